@@ -133,7 +133,12 @@ def build(extra_mods=(), force_assumed=()):
     text = ''.join(chunks)
     if not insertion_only:
         raise Undecided('internal: splice was not insertion-only')
-    return {'text': text, 'registry': registry, 'logs': logs, 'contracts': allc, 'lost': lost_all}
+    bodies = {}
+    for m in mods:
+        fns_, _m = index_functions(extracted[m])
+        for q_, (kw_, bo_, bc_) in fns_.items():
+            bodies[m + '::' + q_] = hashlib.sha1(' '.join(extracted[m][kw_:bc_ + 1].split()).encode()).hexdigest()[:16]
+    return {'text': text, 'registry': registry, 'logs': logs, 'contracts': allc, 'lost': lost_all, 'bodies': bodies}
 
 
 def line_index(text):
@@ -239,12 +244,12 @@ FAILURE_PATTERNS = [
     r'^possible arithmetic underflow/overflow', r'^possible division by zero', r'^possible bit shift',
     r'^decreases not satisfied', r'^expression simplifies to', r'^loop invariant', r'^could not prove termination',
     r'^unable to prove assertion safety condition', r'^recommendation not met', r'^failed precondition',
-    r'^termination', r'^cannot show invariant', r'^index out of bounds', r'^possible overflow',
+    r'^termination', r'^cannot show invariant', r'^index out of bounds', r'^possible overflow', r'^precondition not met',
 ]
 SAFETY_MSGS = [
     'possible arithmetic underflow/overflow', 'possible division by zero', 'possible bit shift underflow/overflow',
     'decreases not satisfied', 'index out of bounds',
-    'recursive call', 'precondition not satisfied', 'assertion failed', 'unreachable',
+    'recursive call', 'precondition not satisfied', 'precondition not met', 'assertion failed', 'unreachable',
 ]
 
 
